@@ -12,7 +12,7 @@ Ltac evf := cbn [eval lookup update set_var String.eqb Ascii.eqb Bool.eqb vars i
 Ltac evsf := evf; chk7; evf; chk7; evf; chk7; evf.
 (* the bookkeeping of a call: frames, cells, budget *)
 Ltac evc := cbn [prog_env eval_args callee_init finish_call copy_in copy_out try_update update lookup combine map app String.append
-                 String.eqb Ascii.eqb Bool.eqb fparams flocals fbody vars inb outb budget_var cell_token List.length Nat.eqb eval set_var
+                 String.eqb Ascii.eqb Bool.eqb fparams flocals fbody vars inb outb budget_var fail_var cell_token List.length Nat.eqb eval set_var
                  prog_sbdf_read_int8 prog_sbdf_write_int8 prog_sbdf_sec_write prog_sbdf_sec_read prog_sbdf_sec_expect
                  prog_sbdf_fh_write_cur prog_sbdf_fh_read prog_sbdf_vt_write prog_sbdf_vt_read].
 
@@ -426,7 +426,7 @@ Qed.
 Ltac evi := cbn [eval lookup update set_var String.eqb Ascii.eqb Bool.eqb vars inb outb truth cast binop_int binop_uint is_shift b2z fst snd negb budget_var];
   change (0 =? 0) with true; change (1 =? 0) with false; cbn [negb b2z].
 Ltac evci := cbn [prog_env eval_args callee_init finish_call copy_in copy_out try_update update lookup combine map app String.append
-                 String.eqb Ascii.eqb Bool.eqb fparams flocals fbody vars inb outb budget_var cell_token List.length Nat.eqb eval set_var cast
+                 String.eqb Ascii.eqb Bool.eqb fparams flocals fbody vars inb outb budget_var fail_var cell_token List.length Nat.eqb eval set_var cast
                  prog_sbdf_swap_le prog_sbdf_read_int32 prog_sbdf_write_int32].
 
 Definition ri (fr pr : region) (fo po : Z) (cell bv : val) (s o : list Z) : state :=
@@ -634,7 +634,7 @@ Qed.
 Definition str_mem (pre bytes post : list Z) : list Z := pre ++ le32 (zlen bytes + 1) ++ bytes ++ [0] ++ post.
 
 Ltac evs2 := cbn [prog_env eval_args callee_init finish_call copy_in copy_out try_update update lookup combine map app String.append
-                 String.eqb Ascii.eqb Bool.eqb fparams flocals fbody vars inb outb budget_var cell_token List.length Nat.eqb eval set_var cast
+                 String.eqb Ascii.eqb Bool.eqb fparams flocals fbody vars inb outb budget_var fail_var cell_token List.length Nat.eqb eval set_var cast
                  prog_sbdf_get_array_length prog_sbdf_str_len prog_sbdf_write_string prog_sbdf_write_int32 truth binop_int b2z negb].
 
 Lemma skipn_app_zlen {A} (a b : list A) : skipn (Z.to_nat (zlen a)) (a ++ b) = b.
